@@ -354,6 +354,7 @@ class Impl(object):
         self.cats = [Catalog(family=fam), Catalog(family=fam)] if self.twocat else [Catalog(family=fam)]
         self.cat = self.cats[0]
         self.idx = []
+        self.table = {}         # index -> {docid: value | None}: what was indexed (for the independent evaluation)
         for i, k in enumerate(self.kinds):
             attr = "a%d" % i
             if k == "field":
@@ -384,10 +385,38 @@ class Impl(object):
             return [FACET_PATHS[t] for t in toks]
         return ["k%d" % t for t in toks]
 
+    def xbuild(self, t, names):
+        """a query over exotic constants (see the section at the end of this module); fills `names`"""
+        from hypatia import query as Q
+        from hypatia.query import Name
+        if t[0] == "not":
+            return Q.Not(self.xbuild(t[1], names))
+        if t[0] in ("and", "or"):
+            return (Q.And if t[0] == "and" else Q.Or)(*[self.xbuild(k, names) for k in t[1]])
+        i = t[2]
+        conv = lambda x: self.const(i, x)       # noqa: E731
+        if t[0] == "range":
+            _, neg, _, lo, hi, el, eh = t
+            return (Q.NotInRange if neg else Q.InRange)(self.idx[i], xparse_val(lo, names, conv),
+                                                        xparse_val(hi, names, conv), bool(el), bool(eh))
+        _, c, _, tag, v = t
+        if tag == "one":
+            val = xparse_val(v, names, conv)
+        else:
+            val = [xparse_val(x, names, conv) for x in v]
+            if tag == "manyt":
+                val = tuple(val)
+            elif tag == "manyn":
+                key = "c%d" % len(names)
+                names[key] = val
+                val = Name(key)
+        return getattr(Q, CLASSNAME[c])(self.idx[i], val)
+
     def doc(self, c):
         i, d = c[1], c[2]
         o = Doc()
         v = self.value(i, list(c[3:]))
+        self.table.setdefault(i, {})[d] = v
         if v is not None:
             setattr(o, "a%d" % i, v)
         self.idx[i].index_doc(d, o)
@@ -472,7 +501,7 @@ def flat_tokens(t):
     """tokens of a generated (pre-construction) tree – only used for display"""
     if t[0] == "cmp":
         _, c, i, tag, v = t
-        return ["cmp", c, i, tag] + ([len(v)] + list(v) if tag == "many" else [v])
+        return ["cmp", c, i, tag] + ([len(v)] + list(v) if tag != "one" else [v])
     if t[0] == "range":
         return list(t)
     if t[0] == "not":
@@ -492,7 +521,7 @@ def parse_tokens(toks):
             if tag == "one":
                 return ["cmp", c, ix, "one", toks[i + 4]], i + 5
             n = toks[i + 4]
-            return ["cmp", c, ix, "many", list(toks[i + 5:i + 5 + n])], i + 5 + n
+            return ["cmp", c, ix, tag, list(toks[i + 5:i + 5 + n])], i + 5 + n
         if h == "range":
             return ["range"] + list(toks[i + 1:i + 7]), i + 7
         if h == "not":
@@ -517,3 +546,306 @@ def run_ids(fn):
         return idset(ids)
     except Exception as e:
         return exc_name(e)
+
+
+# ======================================================================================================
+# exotic constants (implementation-vs-implementation stream of C05 `xopt` / C04 `xapply`)
+#
+# The Lean model's leaf constants are integers.  hypatia documents more: `hypatia.RangeValue` as the value of
+# Eq / NotEq / Any / NotAny on a field index, floats, tuples as containers of Any/All values, late-bound
+# `Name`s (also inside containers, also bound to a RangeValue or to a whole container).  For trees over such
+# constants the check compares execute(optimize=True), execute(optimize=False) and `xsem`, an independent
+# evaluation over the documents' values written here from the documentation of the comparators.
+#
+# value tokens: 7 | f2.5 | r2:4 rN:4 r2:N (RangeValue) | t2:4 (2-tuple, the legacy range form D13) |
+#               l2.4.6 (list as Eq constant, the legacy any-of form D13) | n3=<token> (Name('x3') bound to <token>)
+# container tags: one | many (list) | manyt (tuple) | manyn (Name bound to the whole list)
+# ======================================================================================================
+XFIELD_CMPS = ["eq", "eq", "noteq", "noteq", "gt", "ge", "lt", "le", "any", "notany", "inrange", "notinrange"]
+XKW_CMPS = ["eq", "eq", "noteq", "any", "notany", "all"]
+
+
+def xnum(s):
+    return None if s == "N" else float(s) if "." in s else int(s)
+
+
+def xparse_val(tok, names, conv):
+    """token -> Python constant; `conv` maps a plain token to the index's value space (field: number,
+    keyword: 'k<n>'); Names are registered in `names`"""
+    from hypatia import RangeValue
+    from hypatia.query import Name
+    if isinstance(tok, int):
+        return conv(tok)
+    if tok[0] == "n":
+        k, rest = tok[1:].split("=", 1)
+        # the name carries its binding (one name = one value within a query; the same name may occur twice)
+        key = "x%s_%s" % (k, rest)
+        names[key] = xparse_val(int(rest) if rest.lstrip("-").isdigit() else rest, names, conv)
+        return Name(key)
+    if tok[0] == "f":
+        return float(tok[1:])
+    if tok[0] == "r":
+        lo, hi = tok[1:].split(":")
+        return RangeValue(xnum(lo), xnum(hi))
+    if tok[0] == "t":
+        lo, hi = tok[1:].split(":")
+        return (xnum(lo), xnum(hi))
+    if tok[0] == "l":
+        return [int(x) for x in tok[1:].split(".")]
+    raise ValueError(tok)
+
+
+def xresolve(tok):
+    """the specification-side reading of a value token: ('v', number) | ('r', lo, hi) | ('l', [numbers])"""
+    if isinstance(tok, int):
+        return ("v", tok)
+    if tok[0] == "n":
+        rest = tok[1:].split("=", 1)[1]
+        return xresolve(int(rest) if rest.lstrip("-").isdigit() else rest)
+    if tok[0] == "f":
+        return ("v", float(tok[1:]))
+    if tok[0] in "rt":
+        lo, hi = tok[1:].split(":")
+        return ("r", xnum(lo), xnum(hi))
+    if tok[0] == "l":
+        return ("l", [int(x) for x in tok[1:].split(".")])
+    raise ValueError(tok)
+
+
+def xmatch(kind, docval, tok):
+    """does a document value satisfy `== constant` (documented reading: a RangeValue / 2-tuple constant on a
+    field index is a closed range with None = open end, a list constant is any-of)"""
+    r = xresolve(tok)
+    if kind != "field":
+        return r[0] == "v" and "k%d" % r[1] in docval      # keyword values are the strings k<n> (Impl.value)
+    if r[0] == "v":
+        return docval == r[1]
+    if r[0] == "r":
+        return (r[1] is None or r[1] <= docval) and (r[2] is None or docval <= r[2])
+    return docval in r[1]
+
+
+def xbound(tok):
+    r = xresolve(tok)
+    assert r[0] == "v", tok
+    return r[1]
+
+
+def xsem(t, kinds, table):
+    """independent evaluation of an exotic tree over the documents' values.  table[i] = {docid: value | None};
+    a complement is taken within the documents known to the leaf's index, Not by De Morgan down to the leaves
+    (what hypatia documents for negate())"""
+    if t[0] == "not":
+        return xsem(neg_tree(t[1]), kinds, table)
+    if t[0] in ("and", "or"):
+        sets = [xsem(k, kinds, table) for k in t[1]]
+        out = set(sets[0])
+        for s in sets[1:]:
+            out = (out & s) if t[0] == "and" else (out | s)
+        return out
+    i = t[2]
+    T = table.get(i, {})
+    known = set(T)
+    vals = {d: v for d, v in T.items() if v is not None}
+    k = kinds[i]
+    if t[0] == "range":
+        _, neg, _, lo, hi, el, eh = t
+        lo, hi = xbound(lo), xbound(hi)
+        pos = {d for d, v in vals.items() if (v > lo if el else v >= lo) and (v < hi if eh else v <= hi)}
+        return known - pos if neg else pos
+    _, c, _, tag, v = t
+    base = NEG_CMP[c] if c in ("noteq", "notany", "notall") else c
+    if base == "eq":
+        pos = {d for d, x in vals.items() if xmatch(k, x, v)}
+    elif base == "any":
+        pos = {d for d, x in vals.items() if any(xmatch(k, x, e) for e in v)}
+    elif base == "all":
+        pos = {d for d, x in vals.items() if all(xmatch(k, x, e) for e in v)}
+    else:
+        b = xbound(v)
+        pos = {d for d, x in vals.items() if {"gt": x > b, "ge": x >= b, "lt": x < b, "le": x <= b}[base]}
+    return known - pos if base != c else pos
+
+
+def xflatten(op, kids):
+    out = []
+    for k in kids:
+        out += k[1] if k[0] == op else [k]
+    return out
+
+
+def xconstruct(t):
+    """the tree the And/Or constructors build (same-type operands are promoted)"""
+    if t[0] in ("and", "or"):
+        return [t[0], xflatten(t[0], [xconstruct(k) for k in t[1]])]
+    if t[0] == "not":
+        return ["not", xconstruct(t[1])]
+    return t
+
+
+def xnegate(t):
+    """negate() of a constructed tree (And.negate builds Or(*negated) - flattening again)"""
+    if t[0] in ("and", "or"):
+        op = "or" if t[0] == "and" else "and"
+        return [op, xflatten(op, [xnegate(k) for k in t[1]])]
+    if t[0] == "not":
+        return t[1]
+    return neg_tree(t)
+
+
+def xfolds(t, out):
+    """the Eq / NotEq folds the optimiser performs on a constructed tree: (node op, comparator, index, leaves)"""
+    if t[0] == "not":
+        return xfolds(xnegate(t[1]), out)
+    if t[0] in ("and", "or"):
+        kids = t[1]
+        for c in ("eq", "noteq"):
+            if all(k[0] == "cmp" and k[1] == c and k[2] == kids[0][2] for k in kids):
+                out.append((t[0], c, kids[0][2], kids))
+                return out
+        for k in kids:
+            xfolds(k, out)
+    return out
+
+
+def xeffective(t, neg=False, out=None):
+    """(comparator after negation pushing, index) of every leaf"""
+    out = [] if out is None else out
+    if t[0] == "cmp":
+        out.append((NEG_CMP[t[1]] if neg else t[1], t[2]))
+    elif t[0] == "range":
+        out.append(("notinrange" if bool(t[1]) != neg else "inrange", t[2]))
+    elif t[0] == "not":
+        xeffective(t[1], not neg, out)
+    else:
+        for k in t[1]:
+            xeffective(k, neg, out)
+    return out
+
+
+def xlegacy(tok):
+    return not isinstance(tok, int) and xresolve(tok)[0] in ("l",) or \
+        (not isinstance(tok, int) and tok.split("=")[-1][0] == "t")
+
+
+def xhazards(t, kinds, has_none):
+    """recorded findings an exotic tree would run into (the stream stays away from them): D3 All/NotAll folds
+    on a field index, D2 effective NotAll, D5 lower+upper bounds on a field index with value-less documents;
+    D23: a fold over a legacy tuple/list Eq constant"""
+    hz = set()
+    for op, c, i, leaves in xfolds(xconstruct(t), []):
+        cls = {("or", "eq"): "any", ("and", "eq"): "all", ("and", "noteq"): "notany", ("or", "noteq"): "notall"}[(op, c)]
+        if kinds[i] == "field" and cls in ("all", "notall"):
+            hz.add("D3")
+        if kinds[i] != "field" and cls == "notall":
+            hz.add("D2")
+        if kinds[i] == "field" and any(xlegacy(k[4]) for k in leaves):
+            hz.add("D23")
+    eff = xeffective(t)
+    if any(c == "notall" for c, _ in eff):
+        hz.add("D2")
+    for i in set(i for _, i in eff):
+        if has_none.get(i) and any(c in ("lt", "le") and j == i for c, j in eff) and \
+                any(c in ("gt", "ge") and j == i for c, j in eff):
+            hz.add("D5")
+    return hz
+
+
+def gen_xvalue(rng, kind, legacy=False):
+    """one value token"""
+    if kind != "field":
+        x = rng.randrange(6)
+        return "n%d=%d" % (rng.randrange(4), x) if rng.random() < 0.3 else x
+    r = rng.random()
+    if legacy:
+        base = rng.choice(["t%d:%d" % (rng.randrange(5), rng.randrange(3, 10)),
+                           "l" + ".".join(str(rng.randrange(10)) for _ in range(rng.choice([1, 3])))])
+    elif r < 0.3:
+        base = rng.randrange(10)
+    elif r < 0.75:
+        lo, hi = rng.randrange(10), rng.randrange(10)
+        if rng.random() < 0.7 and lo > hi:
+            lo, hi = hi, lo
+        q = rng.random()
+        base = "r%s:%s" % ("N" if q < 0.15 else lo, "N" if 0.15 <= q < 0.3 else hi)
+    else:
+        base = "f%s" % rng.choice(["2.0", "2.5", "0.5", "7.5", "4.0", "-1.5", "9.5"])
+    if rng.random() < 0.25:
+        return "n%d=%s" % (rng.randrange(4), base)
+    return base
+
+
+def gen_xbound(rng):
+    r = rng.random()
+    base = rng.randrange(10) if r < 0.4 else "f%s" % rng.choice(["2.0", "2.5", "0.5", "7.5", "4.0", "-1.5", "9.5"])
+    return "n%d=%s" % (rng.randrange(4), base) if rng.random() < 0.25 else base
+
+
+def gen_xleaf(rng, kinds, i=None, c=None, legacy=False):
+    i = rng.randrange(len(kinds)) if i is None else i
+    k = kinds[i]
+    c = c or rng.choice(XFIELD_CMPS if k == "field" else XKW_CMPS)
+    if c in ("inrange", "notinrange"):
+        return ["range", 1 if c == "notinrange" else 0, i, gen_xbound(rng), gen_xbound(rng), rng.randrange(2),
+                rng.randrange(2)]
+    if c in ("gt", "ge", "lt", "le"):
+        return ["cmp", c, i, "one", gen_xbound(rng)]
+    if c in ("any", "notany", "all"):
+        tag = rng.choice(["many", "many", "manyt", "manyn"])
+        vals = [gen_xvalue(rng, k) for _ in range(rng.choice([1, 2, 2, 3]))]
+        if tag == "manyn":
+            # the whole container is late-bound: its elements are plain values (a bound value is not searched
+            # for further Names)
+            vals = [int(r) if isinstance(r, str) and r.lstrip("-").isdigit() else r
+                    for r in (v.split("=", 1)[1] if isinstance(v, str) and v[0] == "n" else v for v in vals)]
+        return ["cmp", c, i, tag, vals]
+    return ["cmp", c, i, "one", gen_xvalue(rng, k, legacy)]
+
+
+def gen_xtree(rng, kinds, depth=2, legacy=False):
+    """biased to what the optimiser rewrites: all-Eq / all-NotEq operand lists on one index (or on two indexes
+    of the same kind), Gt/Ge with Lt/Le pairs, Not above them"""
+    r = rng.random()
+    if depth <= 0 or r < 0.12:
+        return gen_xleaf(rng, kinds, legacy=legacy)
+    if r < 0.55:
+        i = rng.randrange(len(kinds))
+        same = [j for j, k in enumerate(kinds) if k == kinds[i]]
+        c = rng.choice(["eq", "eq", "noteq"])
+        mixed = len(same) > 1 and rng.random() < 0.3
+        kids = [gen_xleaf(rng, kinds, rng.choice(same) if mixed else i, c, legacy and n == 0)
+                for n in range(rng.choice([1, 2, 2, 3, 4]))]
+        t = ["or" if c == "eq" or rng.random() < 0.2 else "and", kids] if kinds[i] == "field" else \
+            [rng.choice(["and", "or"]), kids]
+        if rng.random() < 0.3:
+            t = ["not", neg_tree(t)] if rng.random() < 0.6 else ["not", t]
+        if rng.random() < 0.2:
+            t = [rng.choice(["and", "or"]), [t, gen_xtree(rng, kinds, depth - 1)]]
+        return t
+    if r < 0.7 and "field" in kinds:
+        i = rng.choice([j for j, k in enumerate(kinds) if k == "field"])
+        kids = [gen_xleaf(rng, kinds, i, rng.choice(["gt", "ge", "lt", "le"])) for _ in range(rng.choice([2, 2, 3]))]
+        if rng.random() < 0.3:
+            kids.insert(rng.randrange(len(kids) + 1), gen_xleaf(rng, kinds))
+        return [rng.choice(["and", "and", "or"]), kids]
+    if r < 0.8:
+        return ["not", gen_xtree(rng, kinds, depth - 1)]
+    return [rng.choice(["and", "or"]), [gen_xtree(rng, kinds, depth - 1) for _ in range(rng.choice([2, 2, 3]))]]
+
+
+def xfeatures(t):
+    toks = [str(x) for x in flat_tokens(t)]
+    f = set()
+    for x in toks:
+        if "=" in x and x[0] == "n":
+            f.add("name")
+            x = x.split("=", 1)[1]
+        if x[0] == "r" and ":" in x:
+            f.add("rangevalue")
+        elif x[0] == "f" and x[1:2].isdigit() or x[:2] == "f-":
+            f.add("float")
+        elif x[0] in "tl" and x[1:2].isdigit():
+            f.add("legacy-tuple/list")
+        elif x in ("manyt", "manyn"):
+            f.add("container-" + ("tuple" if x == "manyt" else "name"))
+    return sorted(f)
